@@ -152,6 +152,23 @@ def run(tier, seed, replay_case=None):
         items += core.run_sharded(eval_cases, seed, total, {'tier': tier})
     drv = core.Driver()
     fms = T.full_model([it['scn'] for it in items], drv)
+    # `FileSearcher.add` / `apply_global` as modelled in Lean (SkModel.Searcher, theorems
+    # C07_global_*): the decision the expectations above are built on must be the model's
+    gcases = []
+    for it in items:
+        scn = it['scn']
+        exp = scn.get('_expanded', {})
+        gcases.append({'kind': 'gapply', 'paths': ['f0.log'],
+                       'ops': [{'search': r[0], 'agc': r[2] if len(r) > 2 else True,
+                                'expanded': ['f0.log'] if isinstance(r[1], int) else
+                                [scn['files'][k]['name'] for k in exp.get(r[1], [])]}
+                               for r in scn['regs']]})
+    for it, g in zip(items, drv.run(gcases)):
+        want = (it['scn'].get('global') is not None) and g['model']['applies'][0]
+        if want != S.global_applies(it['scn'], 0):
+            raise core.Infra("SkModel.Searcher.globalApplies disagrees with the harness's "
+                             f"global_applies on {it['scn']['regs']}")
+    rep.count('global_decisions_checked_against_lean', len(items))
     for it, fm in zip(items, fms):
         judge(rep, it, fm)
     rep.assumptions = ["timestamp extraction is an oracle (Python re + datetime)",
